@@ -9,7 +9,9 @@ package main
 import (
 	"flag"
 	"fmt"
+	"strings"
 
+	"github.com/orbs-network/lean-helix-go/services/interfaces"
 	"github.com/orbs-network/lean-helix-go/spec/types/go/primitives"
 	"github.com/orbs-network/lean-helix-go/spec/types/go/protocol"
 )
@@ -241,8 +243,128 @@ func cmdGuards(args []string) int {
 		}
 	}
 
+	// ---------------------------------------------------------------- PREPREPARE / PREPARE / COMMIT to a follower in view pre
+	type simple struct {
+		kind   string
+		rf     refD
+		sender primitives.MemberId
+		mode   string
+		share  string
+		blk    *vBlock
+		noBlk  bool
+	}
+	type sDev struct {
+		name  string
+		kinds string
+		f     func(e *guardEnv, m *simple)
+	}
+	sDevs := []sDev{
+		{"", "PP P C", func(e *guardEnv, m *simple) {}},
+		{"sig_forged", "PP P C", func(e *guardEnv, m *simple) { m.mode = "forged" }},
+		{"sig_empty", "PP P C", func(e *guardEnv, m *simple) { m.mode = "empty" }},
+		{"by_outsider", "PP P C", func(e *guardEnv, m *simple) { m.sender = e.cl.ids[e.cl.nMembers] }},
+		{"other_instance", "PP P C", func(e *guardEnv, m *simple) { m.rf.inst++ }},
+		{"next_height", "PP P C", func(e *guardEnv, m *simple) { m.rf.h++ }},
+		{"far_height", "PP P C", func(e *guardEnv, m *simple) { m.rf.h += 7 }},
+		{"height_zero", "PP P C", func(e *guardEnv, m *simple) { m.rf.h = 0 }},
+		{"header_type_prepare", "PP C", func(e *guardEnv, m *simple) { m.rf.ht = protocol.LEAN_HELIX_PREPARE }},
+		{"header_type_commit", "PP P", func(e *guardEnv, m *simple) { m.rf.ht = protocol.LEAN_HELIX_COMMIT }},
+		{"header_type_preprepare", "P C", func(e *guardEnv, m *simple) { m.rf.ht = protocol.LEAN_HELIX_PREPREPARE }},
+		{"header_type_view_change", "PP P C", func(e *guardEnv, m *simple) { m.rf.ht = protocol.LEAN_HELIX_VIEW_CHANGE }},
+		{"next_view", "PP P C", func(e *guardEnv, m *simple) {
+			m.rf.v++
+			if m.kind == "PP" {
+				m.sender = leaderAt(e.cl, h, m.rf.v)
+			}
+		}},
+		{"older_view", "PP P C", func(e *guardEnv, m *simple) {
+			if m.rf.v > 0 {
+				m.rf.v--
+				if m.kind == "PP" {
+					m.sender = leaderAt(e.cl, h, m.rf.v)
+				}
+			}
+		}},
+		{"pp_by_non_leader", "PP", func(e *guardEnv, m *simple) { m.sender = leaderAt(e.cl, h, m.rf.v+1) }},
+		{"p_by_the_leader", "P", func(e *guardEnv, m *simple) { m.sender = leaderAt(e.cl, h, m.rf.v) }},
+		{"block_missing", "PP", func(e *guardEnv, m *simple) { m.noBlk = true }},
+		{"block_of_another_hash", "PP", func(e *guardEnv, m *simple) { m.blk = e.r.adv.newBody(e.r, h, false) }},
+		{"block_consumer_rejects", "PP", func(e *guardEnv, m *simple) {
+			m.blk = e.r.adv.newBody(e.r, h, true)
+			m.rf.hash = hashOfBody(m.blk.body)
+		}},
+		{"hash_empty", "P C", func(e *guardEnv, m *simple) { m.rf.hash = primitives.BlockHash{} }},
+		{"share_forged", "C", func(e *guardEnv, m *simple) { m.share = "forged" }},
+	}
+	simpleCase := func(ws []uint64, rotate bool, kind string, pre int, devs []sDev) {
+		probe := newCluster(ws, nil, 0, rotate)
+		lead := memberIdx(probe, leaderAt(probe, h, uint64(pre)))
+		probe.close()
+		keep := (lead + 1) % len(ws) // a follower of the view the node will be in
+		cl := loneCluster(ws, keep, rotate)
+		defer cl.close()
+		pick(runId)
+		r := &run{cl: cl, adv: newAdversary(cl), rnd: rnd, out: out, chain: map[uint64]commitRec{}, maxH: 1, stats: stats, tmpl: tmpl, label: "guards_" + kind}
+		n := cl.nodes[keep]
+		r.emitInit(runId)
+		runId++
+		n.sync(nil, nil)
+		r.record(n, "start", obj{"k": "-"}, nil)
+		for k := 0; k < pre; k++ {
+			if n.timeout() {
+				r.record(n, "timeout", obj{"k": "-"}, nil)
+			}
+		}
+		e := &guardEnv{cl: cl, r: r, n: n, h: h, tv: uint64(pre)}
+		blk := r.adv.newBody(r, h, false)
+		m := &simple{kind: kind, blk: blk}
+		other := cl.ids[(keep+1)%len(ws)]
+		if other.Equal(cl.ids[lead]) {
+			other = cl.ids[(keep+2)%len(ws)]
+		}
+		switch kind {
+		case "PP":
+			m.rf, m.sender = ref(protocol.LEAN_HELIX_PREPREPARE, h, uint64(pre), blk), cl.ids[lead]
+		case "P":
+			m.rf, m.sender = ref(protocol.LEAN_HELIX_PREPARE, h, uint64(pre), blk), other
+		case "C":
+			m.rf, m.sender = ref(protocol.LEAN_HELIX_COMMIT, h, uint64(pre), blk), other
+		}
+		name := ""
+		for _, d := range devs {
+			d.f(e, m)
+			name += d.name + "+"
+		}
+		var raw *interfaces.ConsensusRawMessage
+		switch kind {
+		case "PP":
+			if m.noBlk {
+				raw = r.adv.mkPP(m.rf, m.sender, m.mode, nil)
+			} else {
+				raw = r.adv.mkPP(m.rf, m.sender, m.mode, m.blk)
+			}
+		case "P":
+			raw = r.adv.mkP(m.rf, m.sender, m.mode)
+		case "C":
+			raw = r.adv.mkC(m.rf, m.sender, m.mode, m.share)
+		}
+		r.deliverTo(n, raw, "deliver", "byz", "guard_"+kind+":"+name)
+	}
+
 	for gi, ws := range grids {
 		rotate := gi%2 == 1
+		for _, kind := range []string{"PP", "P", "C"} {
+			for _, pre := range []int{0, 2} {
+				if kind == "PP" && pre > 0 {
+					continue // a standalone PREPREPARE in a view above 0 is finding H2
+				}
+				for _, d := range sDevs {
+					if strings.Contains(" "+d.kinds+" ", " "+kind+" ") {
+						simpleCase(ws, rotate, kind, pre, []sDev{d})
+					}
+				}
+			}
+		}
 		for _, tvpv := range [][2]uint64{{1, 0}, {2, 1}, {5, 3}} {
 			for _, d := range vcDevs {
 				vcCase(ws, rotate, tvpv[0], tvpv[1], []vcDev{d})
